@@ -95,7 +95,7 @@ def box(v):
         return Val.N
     if k == "float":
         return Val.F(v.t)
-    if k in ("ref", "func", "cls", "module"):
+    if k in ("ref", "func", "cls", "module", "closure"):
         return Val.R(v.t)
     raise TypeError(f"cannot box {v!r}")
 
